@@ -29,14 +29,16 @@ def main():
     budget = int(sys.argv[sys.argv.index("--budget") + 1]) if "--budget" in sys.argv else 40
     check_args = sys.argv[sys.argv.index("--check-args") + 1 :] if "--check-args" in sys.argv else []
     check_prop = sys.argv[sys.argv.index("--check-prop") + 1] if "--check-prop" in sys.argv else prop
-    src = f"/tmp/mut/{prop}-out"
+    src_root = sys.argv[sys.argv.index("--src-root") + 1] if "--src-root" in sys.argv else "/tmp/mut"
+    as_letter = sys.argv[sys.argv.index("--as") + 1] if "--as" in sys.argv else letter
+    src = f"{src_root}/{prop}-out"
     patch = os.path.join(src, f"{letter}.patch.diff")
     demo = os.path.join(src, f"demo_{letter}.py")
     assert os.path.exists(patch), patch
     assert os.path.exists(demo), demo
     d = tempfile.mkdtemp(prefix="verif-seed-")
     wt = os.path.join(d, "wt")
-    meta = {"property": prop, "id": f"{prop}-{letter}", "ran": []}
+    meta = {"property": prop, "id": f"{prop}-{as_letter}", "ran": []}
     try:
         sh(["git", "-C", "/repo", "worktree", "add", "-q", "--detach", wt, "HEAD"], check=True)
         shutil.copy("/repo/src/easynetwork/version.py", os.path.join(wt, "src", "easynetwork", "version.py"))
@@ -66,7 +68,7 @@ def main():
         if check_prop != prop:
             meta.setdefault("other_checks", {})[check_prop] = {"exit": c.returncode, "keys": keys[:6]}
             print(json.dumps(meta["other_checks"], indent=1))
-            mp = os.path.join(VERIF, "seeded", f"{prop}-{letter}", "meta.json")
+            mp = os.path.join(VERIF, "seeded", f"{prop}-{as_letter}", "meta.json")
             if os.path.exists(mp):
                 prev = json.load(open(mp))
                 prev.setdefault("other_checks", {}).update(meta["other_checks"])
@@ -92,7 +94,7 @@ def main():
     meta["confirmed"] = confirmed
     meta["expected"] = "killed"
     if confirmed:
-        out = os.path.join(VERIF, "seeded", f"{prop}-{letter}")
+        out = os.path.join(VERIF, "seeded", f"{prop}-{as_letter}")
         os.makedirs(out, exist_ok=True)
         shutil.copy(patch, os.path.join(out, "patch.diff"))
         shutil.copy(demo, os.path.join(out, "demo.py"))
